@@ -33,6 +33,11 @@ func VH_C14_v3_views() {
 	if e1 != nil || e2 != nil || e3 != nil {
 		return
 	}
+	if vrt.Bool("envFirst") {
+		// the views must agree whatever was queried first on the environmental object
+		_ = em.Score()
+		_ = em.Severity()
+	}
 	vrt.Assert(em.BaseMetrics() == em.Temporal.Base && em.TemporalMetrics() == em.Temporal && tm.BaseMetrics() == tm.Base && bm.BaseMetrics() == bm, "accessors return the embedded objects")
 	eb, _ := em.BaseMetrics().Encode()
 	tb, _ := tm.BaseMetrics().Encode()
